@@ -275,7 +275,11 @@ pub fn real_format(req: &FmtReq) -> FmtOutcome {
     let pad = 64 * 1024u64;
     // two media out of three hold stale non-zero bytes everywhere (a used card): whatever the formatter does not
     // write keeps them, so a table copy, root area or FS-info field it forgets to initialise is visible
-    let fill: u8 = if (vol_bytes / 512 + req.bps as u64 / 512 + req.fats.unwrap_or(0) as u64) % 3 == 0 { 0 } else { crate::vol::GARBAGE };
+    // (volumes above 8 GiB stay zero-filled: their tables are hundreds of megabytes and zero pages of the sparse store are free)
+    let fill: u8 = if vol_bytes > (8u64 << 30) || (vol_bytes / 512 + req.bps as u64 / 512 + req.fats.unwrap_or(0) as u64) % 3 == 0 { 0 } else { crate::vol::GARBAGE };
+    // one storage in five makes short transfers (legal for the storage traits; small volumes only, every transfer
+    // becomes several device calls)
+    let short = vol_bytes <= (64u64 << 20) && (vol_bytes / 512 + req.bps as u64 / 256 + req.root_entries.unwrap_or(0) as u64) % 5 == 0;
     let store = Store::sparse(vol_bytes + pad, fill);
     let dev = MemDev::new(store);
     // device size as seen by the library when total_sectors is None: without the pad
@@ -284,12 +288,18 @@ pub fn real_format(req: &FmtReq) -> FmtOutcome {
             d.store = Store::sparse(vol_bytes, fill);
         });
     }
+    if short {
+        dev.with(|d| d.short_io = vol_bytes.wrapping_mul(0x9E37_79B9_7F4A_7C15) | 1);
+    }
     let opts = req.options();
     let mut dh = dev.handle();
     dev.with(|d| d.budget = 40_000_000);
     let r = guard(move || fatfs::format_volume(&mut dh, opts));
     let budget_hit = dev.with(|d| d.budget_hit);
-    dev.with(|d| d.budget = u64::MAX);
+    dev.with(|d| {
+        d.budget = u64::MAX;
+        d.short_io = 0;
+    });
     let res = match r {
         Caught::Panic(p) => return FmtOutcome { accepted: false, verdict: Err(format!("format_volume panicked: {}", p)), geom: None },
         Caught::Ok(r) => r,
@@ -611,6 +621,40 @@ pub fn run(tier: Tier, seed: u64) -> i32 {
         let req = FmtReq::default_with(t);
         let mut out = eval_real(&req);
         out.nontrivial = true;
+        fixed.record(&out, || serde_json::to_value(&req).unwrap());
+        if let Some(m) = out.violation {
+            if fixed.failure.is_none() {
+                fixed.failure = Some(Failure { message: m, case: serde_json::to_value(&req).unwrap(), kind: "format".into() });
+            }
+        }
+    }
+    // size taken from the storage (total_sectors not given): the documented range is 42 .. 2^32-1 sectors of 512 bytes
+    for (bytes, must_accept) in [
+        (41u64 * 512 + 511, Some(false)),
+        (42 * 512, Some(true)),
+        (42 * 512 + 511, Some(true)),
+        (1 << 20, Some(true)),
+        ((u32::MAX as u64 - 1) * 512, Some(true)),
+        (u32::MAX as u64 * 512, Some(true)),
+        (u32::MAX as u64 * 512 + 511, Some(true)),
+        ((1u64 << 32) * 512, Some(false)),
+        ((1u64 << 32) * 512 + 4096, Some(false)),
+    ] {
+        if tier == Tier::Quick && bytes > (1 << 30) && bytes != u32::MAX as u64 * 512 + 511 && bytes != (1u64 << 32) * 512 {
+            continue;
+        }
+        let mut req = FmtReq::default_with(0);
+        req.total_sectors = None;
+        req.device_bytes = bytes;
+        let o = real_format(&req);
+        let mut out = CaseOut::default();
+        out.hash = run::hash_str(&format!("devsize{}", bytes));
+        out.nontrivial = true;
+        out.violation = match (&o.verdict, must_accept) {
+            (Err(m), _) => Some(format!("format {:?}: {}", req, m)),
+            (Ok(()), Some(want)) if want != o.accepted => Some(format!("format with the size taken from a storage of {} bytes ({} sectors of 512 bytes) was {}, default options must {} it", bytes, bytes / 512, if o.accepted { "accepted" } else { "rejected" }, if want { "accept" } else { "reject" })),
+            _ => None,
+        };
         fixed.record(&out, || serde_json::to_value(&req).unwrap());
         if let Some(m) = out.violation {
             if fixed.failure.is_none() {
